@@ -1,15 +1,17 @@
 #!/bin/bash
 # usage: try_seeded.sh <seeded-id> <prop> [<prop>...]   (env TIER=quick|thorough, RUNS=n)
-# Applies /verif/seeded/<id>/patch.diff to /repo, runs the given checks, reverts /repo. Never commits.
+# Runs the given checks against a scratch worktree of /repo with /verif/seeded/<id>/patch.diff applied
+# (VERIF_ALT_REPO, see /verif/check): /repo itself is not touched, outputs go to /verif/.cache/alt.
 set -u
 id=$1; shift
-cd /repo || exit 2
-if ! git diff --quiet; then echo "/repo has uncommitted changes"; exit 2; fi
-git apply /verif/seeded/$id/patch.diff || { echo "patch does not apply"; exit 2; }
-trap 'git -C /repo checkout -- . ' EXIT
+wt=/tmp/try_$id
+git -C /repo worktree remove --force $wt >/dev/null 2>&1
+git -C /repo worktree add -q $wt HEAD || exit 2
+trap 'git -C /repo worktree remove --force '$wt' >/dev/null 2>&1; git -C /repo worktree prune' EXIT
+git -C $wt apply /verif/seeded/$id/patch.diff || { echo "patch does not apply"; exit 2; }
 cd /verif
 for p in "$@"; do
-  out=$(./check $p --tier ${TIER:-quick} ${RUNS:+--runs $RUNS} --nodeterminism 2>&1)
+  out=$(VERIF_ALT_REPO=$wt ./check $p --tier ${TIER:-quick} ${RUNS:+--runs $RUNS} --nodeterminism 2>&1)
   code=$?
   echo "== $id / $p: exit $code"
   echo "$out" | grep -E "^(VIOLATION|violation|INFRA|runs=)" | head -6
